@@ -231,9 +231,34 @@ func GuardsAt(info *types.Info, body ast.Node, target ast.Node) []Guard {
 			if s == child || (child.Pos() >= s.Pos() && child.End() <= s.End()) {
 				break
 			}
-			// effects of s first invalidate older guards
-			dropAssigned([]ast.Node{s})
+			// effects of s first invalidate older guards; the body of an `if` that never falls
+			// through cannot affect the code after it
+			if ifs0, ok := s.(*ast.IfStmt); ok && Terminates(info, ifs0.Body.List) {
+				var parts []ast.Node
+				if ifs0.Init != nil {
+					parts = append(parts, ifs0.Init)
+				}
+				parts = append(parts, ifs0.Cond)
+				if ifs0.Else != nil {
+					parts = append(parts, ifs0.Else)
+				}
+				dropAssigned(parts)
+			} else {
+				dropAssigned([]ast.Node{s})
+			}
 			if ifs, ok := s.(*ast.IfStmt); ok {
+				// `if E == "" { E = "<non-empty const>" }` (also len(E) == 0): afterwards E != ""
+				if ifs.Else == nil && ifs.Init == nil && len(ifs.Body.List) == 1 {
+					if be, ok := ast.Unparen(ifs.Cond).(*ast.BinaryExpr); ok && be.Op == token.EQL {
+						if as, ok := ifs.Body.List[0].(*ast.AssignStmt); ok && len(as.Lhs) == 1 && len(as.Rhs) == 1 && as.Tok == token.ASSIGN {
+							if v, ok := ConstStr(info, as.Rhs[0]); ok && v != "" {
+								if c, ok := ConstStr(info, be.Y); ok && c == "" && AccessPath(info, be.X) != "" && AccessPath(info, be.X) == AccessPath(info, as.Lhs[0]) {
+									gs = append(gs, Guard{Cond: &ast.BinaryExpr{X: be.X, Op: token.NEQ, Y: be.Y}, Pos: true, At: ifs.Pos()})
+								}
+							}
+						}
+					}
+				}
 				// variables assigned in the if statement itself were dropped above; guards
 				// derived from it are about the state after it
 				bodyT := Terminates(info, ifs.Body.List)
@@ -340,6 +365,15 @@ func GuardsAt(info *types.Info, body ast.Node, target ast.Node) []Guard {
 							}
 						}
 					}
+				}
+			}
+		case *ast.BinaryExpr:
+			// short-circuit: inside the right operand the left one is known
+			if child == ast.Node(x.Y) {
+				if x.Op == token.LAND {
+					add(x.X, true, x.Pos())
+				} else if x.Op == token.LOR {
+					add(x.X, false, x.Pos())
 				}
 			}
 		case *ast.CaseClause:
